@@ -11,7 +11,7 @@ REGISTERED = {
             "Each run executes a seeded sample of real transfers (real client filter or direct client glue, 0-2 real relays, real trz/tsz role functions, loopback tunnel) and judges every one at the boundary: both sides' reports, names shown, destination tree vs source tree. It samples the configuration space; it does not enumerate it.",
             "harness wires, in-process server roles and a small family of real trz/tsz child processes (tunnel, fork mode, ulimit -n 64); fake chooser", "DESIGN.md 5/C01"),
     "C02": ("runtime monitoring: byte-level fault injection on the live connection + 'never success with different content' oracle",
-            "Single and multiple byte faults (flip, delete, duplicate, insert, truncate) are injected online at logical offsets of either direction of real transfers, enumerated over every message boundary and header byte of a recorded fault-free transcript; any side reporting success, or the receiver acknowledging a file, is checked against the source bytes.",
+            "Single and multiple byte faults (flip, delete, duplicate, insert, truncate) are injected online at logical offsets of either direction of real transfers, enumerated over every message boundary and header byte of a recorded fault-free transcript; any side reporting success, or the receiver acknowledging a file, is checked against the source bytes. A big-resume family damages (drops, duplicates, bit-flips) single lines of the prefix-hash exchange of a resume spanning two 10 MiB comparison blocks.",
             "faults are random/enumerated, not adversarial MD5 forgeries; offsets are logical positions in one transcript per scenario", "DESIGN.md 5/C02"),
     "C03": ("runtime monitoring: reference-model differential over bounded-exhaustive and random segmentations, promptness monitor",
             "The real trzszBuffer is compared, operation by operation, with a one-cursor reference parser: exhaustively for all short streams x all segmentations x all short operation sequences, and for long random protocol-shaped streams fed incrementally where every completable read must return before more input is supplied.",
@@ -20,7 +20,7 @@ REGISTERED = {
             "All byte pairs under both built-in tables, seeded payloads under random announced tables, every streaming chain split arbitrarily (also between leader and code) with and without zstd, rejection of every undefined code, and a tap on real binary uploads asserting no protected byte between ACT and EXIT.",
             "random tables are well-formed (injective, codes outside the protected set)", "DESIGN.md 5/C04"),
     "C05": ("runtime monitoring: byte-exact transparency oracle on a live filter across stream classes, option sets and transfer histories",
-            "A real TrzszFilter is fed seeded output/input streams (binary, escape soup, near-miss triggers, zmodem/OSC52 fragments, path-like input) under all option sets and chunkings, before and after histories of transfers ending in success, failure, refusal, cancel and stop; both directions must come out byte-identical.",
+            "A real TrzszFilter is fed seeded output/input streams (binary, escape soup, near-miss triggers, zmodem/OSC52 fragments, path-like input) under all option sets and chunkings, before and after histories of transfers ending in success, failure, refusal, cancel and stop, of cancelled drags and of drags that typed an upload command the remote did not know; both directions must come out byte-identical.",
             "clipboard and chooser are faked; the real trzsz binary on a pty is covered by a small family (blob out, bytes in, exit status)", "DESIGN.md 5/C05"),
     "C06": ("runtime monitoring: independent recogniser as reference model for the real detector, filter-level ACT counting",
             "Every generated read is judged by a hand-written recogniser of the trigger grammar and vetoes; the real detector (client and relay mode) must agree on firing and fields, its output must have the documented form, and a real filter must write exactly one ACT per genuine trigger and nothing otherwise.",
@@ -59,7 +59,7 @@ REGISTERED = {
             "Probing connections (wrong greeting, right prefix wrong id, duplicate genuine greeting, split greeting, silent, flooding) are raced against the genuine client; each must receive zero bytes and be closed unless adopted, at most one connection is adopted, in-band bytes are ignored once the tunnel is agreed, and a missing tunnel falls back in-band with the same result.",
             "loopback sockets; relay tunnel attacked the same way only in the thorough tier", "DESIGN.md 5/C17"),
     "C18": ("runtime monitoring: pause/resume injection at every message boundary with pause-window silence monitor on the wire tap",
-            "A pause is begun at each gate point and resumed after lengths below, around and above the timeout; short pauses must end in success with identical files, any pause must end within the bound without false success, and between pause and resume the paused side may start at most one DATA message, everything else being keep-alives.",
+            "A pause is begun at each gate point and resumed after lengths below, around and above the timeout; short pauses must end in success with identical files, any pause must end within the bound without false success, and between pause and resume the paused side may start at most one DATA message, everything else being keep-alives. Extra plans: server silent after the resume, server silent from before the pause (the read blocked across the resume must still time out), and a second pause of 0.9 x timeout inside a return-link stall on a slow busy uplink (must succeed).",
             "wall-clock pause lengths relative to a 3 s configured timeout; confirm-alone rule for misses", "DESIGN.md 5/C18"),
     "C19": ("runtime monitoring: scripted fake rz/sz helper and scripted server against the real zmodem bridge with hand-back probes",
             "For each (helper behaviour, server behaviour, user action) the session must send the cancel sequence to the side still waiting and, after the server has been quiet for 1.5 s, pass a probe text through to the terminal and typed input to the server.",
